@@ -6,7 +6,8 @@ import MosdnsVerif.Gen.FnDomain
 `ReverseDomainScanner.Scan` and `NextLabel` are regenerated from the source (T1); iterating the
 regenerated `Scan` / `NextLabel` from the scanner's initial state (`p = t = len`) yields exactly
 `Model.C12.scan`, for every byte string (`scan_refines`), and the regenerated `TrimDot` is the
-model's (`trimDot_eq`). -/
+model's (`trimDot_eq`); the regenerated `NormalizeDomain`, with `strings.ToLower` instantiated by byte-wise
+ASCII lower-casing, is the model's `norm` (`normalize_refines`). -/
 namespace Refine.C12
 open Model.C12
 
@@ -176,6 +177,15 @@ theorem trimDot_eq (s : Bytes) : Gen.trimDot s = trimDot s := by
       omega
     · have hne : ¬ Go.idx (init ++ [x]) (init.length : Int) = (46 : UInt8) := by rw [hidx]; exact hx
       simp [Gen.trimDot, trimDot, hlen2, hne, hx]
+
+/-- `strings.ToLower` on an ASCII string: the 26 upper-case letters move down by 32, every
+other byte stays (trusted library semantics, stated here once). -/
+def asciiToLower (s : Bytes) : Bytes := s.map lower
+
+/-- **The regenerated `NormalizeDomain` is the model's `norm`**, for every byte string: whatever
+the body of the Go function is, it has to compute "lower-case every byte of `TrimDot s`". -/
+theorem normalize_refines (s : Bytes) : Gen.normalizeDomain asciiToLower s = norm s := by
+  simp [Gen.normalizeDomain, asciiToLower, norm, trimDot_eq]
 
 /-- **Iterating the regenerated `Scan` / `NextLabel` from the scanner's initial state yields exactly the
 label sequence of the model**, for every byte string. -/
